@@ -444,8 +444,11 @@ func (r *Run) c11GenesisFailures(gen *ssa.Function, tm *Termer, outList ssa.Valu
 		r.OK("Genesis.failure", pos, "Genesis has no failing result")
 		return
 	}
+	// the output list: the value handed to the constructor, or any other read of the same finished list (a list kept
+	// in a field of a struct-valued local is read anew wherever it is used, robust_c11.go c11ListVar)
+	outV := c11ListVarOf(gen, structLocals(gen), Loops(gen), outList)
 	isList := func(v ssa.Value) bool {
-		return v == outList || tm.Of(v).String() == "recv.Genes"
+		return v == outList || (outV != nil && outV.final(v)) || tm.Of(v).String() == "recv.Genes"
 	}
 	explored := 0
 	w := FindPath(p, PathQuery{Fn: gen, Explored: &explored,
